@@ -197,7 +197,11 @@ def r19_5(ctx):
            "html5ever encoding.rs extract_a_character_encoding_from_a_meta_element")
 
 
-def r19_6(ctx):
+LENGTH_CHANGING = {"to_lowercase", "to_uppercase", "trim", "trim_start", "trim_end", "trim_matches", "trim_start_matches", "trim_end_matches", "replace", "replacen", "split_whitespace",
+                   "to_lowercase_string", "escape_default", "escape_debug", "escape_unicode", "nfc", "nfkc", "nfd", "nfkd", "from_utf8_lossy", "to_string_lossy"}
+
+
+def r19_6(ctx, rule2=None):
     """the meta content scanner works on BYTES: every sub-slice of its input that is compared or searched is taken through
     as_bytes() (byte offsets computed by the scan are not, in general, character boundaries of the string: a str slice at such an
     offset is None / panics, and the declaration after a non-ASCII character would be missed)"""
@@ -223,6 +227,20 @@ def r19_6(ctx):
         if k == "Index" and is_input(node["e"]) and node["i"].get("k") == "Range":
             bad.append("%s[range]" % pname)
     walk(its[0]["body"], f)
+    # offsets are only meaningful in the string they were found in: a Unicode case mapping or a trim gives a copy of another length
+    resized = []
+
+    def g(node):
+        if node.get("k") == "MethodCall" and node["m"] in LENGTH_CHANGING:
+            resized.append(node["m"])
+    walk(its[0]["body"], g)
+    ctx.ob(rule2 or "R19.6", "meta-content-offsets-are-offsets-of-the-input", not resized,
+           "no offset is computed in a re-sized copy of the input" if not resized else
+           "the scanner searches a copy of its input made by %s(): such a copy can be longer or shorter than the input (U+0130 lower-cases to three bytes), so the offset found there, applied to the input, "
+           "points elsewhere or past its end - `content=\"\u0130charset\"` indexes out of range and panics" % sorted(set(resized))[0],
+           "html5ever encoding.rs extract_a_character_encoding_from_a_meta_element")
+    if rule2:
+        return
     ctx.ob("R19.6", "meta-content-is-scanned-as-bytes", not bad and n[0] >= 3, "the input is examined only through as_bytes() (%d sites) and cut only by subtendril at offsets the scan established" % n[0] if not bad and n[0] >= 3 else
            "the scanner slices / searches its input as a string (%s): at a byte offset that is not a character boundary that is None or a panic, so a charset declaration after a non-ASCII character is not found" % sorted(set(bad)),
            "html5ever encoding.rs extract_a_character_encoding_from_a_meta_element")
